@@ -73,6 +73,35 @@ pub fn run(args: &Args) -> i32 {
     let lf = lider_files();
     let nl = if thorough { lf.len() } else { 8 };
     paths.extend(lf.iter().take(nl).map(|p| p.to_string_lossy().to_string()));
+    // generated projects, half of them with one block written twice (two elements with the same definition)
+    {
+        let dir = std::path::Path::new(&args.out).join("gen");
+        std::fs::create_dir_all(&dir).ok();
+        let mut rng = Rng::new(args.seed ^ 0xC05B);
+        for i in 0..(if thorough { 40 } else { 8 }) {
+            let p = crate::bdlgen::gen_proj(&mut rng, &crate::bdlgen::GenOpts { rotated_spaces: i % 3 == 2, polygon_outlines: i % 2 == 1 });
+            let mut text = crate::bdlgen::print_proj(&p);
+            if i % 2 == 1 {
+                let lines: Vec<&str> = text.lines().collect();
+                let kinds = ["= WINDOW", "= MATERIAL", "= BUILDING-SHADE", "= THERMAL-BRIDGE", "= DAY-SCHEDULE-PD", "= GLASS-TYPE"];
+                let kind = kinds[(i / 2) % kinds.len()];
+                let heads: Vec<usize> = lines.iter().enumerate().filter(|(_, l)| l.trim_end().ends_with(kind)).map(|(j, _)| j).collect();
+                if !heads.is_empty() {
+                    let h = *rng.pick(&heads);
+                    if let Some(e) = (h..lines.len()).find(|&j| lines[j].trim() == "..") {
+                        let mut v: Vec<&str> = lines[..=e].to_vec();
+                        v.extend_from_slice(&lines[h..=e]);
+                        v.extend_from_slice(&lines[e + 1..]);
+                        text = v.join("\n");
+                    }
+                }
+            }
+            let path = dir.join(format!("generated{i}.cte"));
+            if std::fs::write(&path, text).is_ok() {
+                paths.push(path.to_string_lossy().to_string());
+            }
+        }
+    }
     let first: Vec<Option<String>> = paths.iter().map(|p| convert_any(p)).collect();
     let second: Vec<Option<String>> = paths.iter().map(|p| convert_any(p)).collect();
     let threaded: Vec<Option<String>> = std::thread::scope(|s| {
